@@ -4,6 +4,7 @@ import (
 	"encoding/json"
 	"sort"
 
+	"github.com/buildbuildio/pebbles/common"
 	"github.com/buildbuildio/pebbles/planner"
 	"github.com/buildbuildio/pebbles/requests"
 	"github.com/vektah/gqlparser/v2"
@@ -255,6 +256,8 @@ func VerifSubRequests() {
 	var sp planner.SequentialPlanner
 	plan, perr := sp.Plan(&planner.PlanningContext{Operation: doc2.Operations[0], Request: &requests.Request{Query: op.q, Variables: vars}, Schema: f.gw.schema, TypeURLMap: f.gw.typeURLMap})
 	if perr == nil {
+		// every planned step is a sub-request, whether or not the data lets execution reach it
+		vPlannedStepsValid(f, plan.RootSteps, cop.Operation)
 		planned := map[string]bool{}
 		vStepPaths(plan.RootSteps, planned)
 		wanted := map[string]bool{}
@@ -264,6 +267,30 @@ func VerifSubRequests() {
 		}
 	}
 	verifReach("operation translated")
+}
+
+func vPlannedStepsValid(f *vFed, steps []*planner.QueryPlanStep, clientOp ast.Operation) {
+	for _, st := range steps {
+		if st.URL == common.InternalServiceName {
+			continue // answered by the gateway itself (introspection, root __typename)
+		}
+		svc := f.svcByURL(st.URL)
+		verifAssert(svc != nil, "planned steps go to known services only")
+		if svc == nil {
+			continue
+		}
+		sdoc, serr := gqlparser.LoadQuery(svc.schema, st.QueryString)
+		verifAssert(serr == nil, "every planned sub-request validates against the schema of its service: "+st.URL+": "+vNorm(st.QueryString))
+		if serr == nil && len(sdoc.Operations) == 1 {
+			if len(st.InsertionPoint) == 0 {
+				verifAssert(sdoc.Operations[0].Operation == clientOp, "a root step carries the client's operation type")
+			} else {
+				verifAssert(sdoc.Operations[0].Operation == ast.Query, "a dependent step is a query")
+				verifAssert(st.OperationName == nil && sdoc.Operations[0].Name == "", "a dependent step is anonymous")
+			}
+		}
+		vPlannedStepsValid(f, st.Then, clientOp)
+	}
 }
 
 // vSelPaths collects the response paths (dot-joined response keys) of every field of a selection set
@@ -322,13 +349,14 @@ func vJSONNorm(v interface{}) interface{} {
 const vSM1 = `
 interface Node { id: ID! }
 type Human implements Node { id: ID! name: String! }
+type SavePayload { human: Human query: Query }
 type Query { node(id: ID!): Node me: Human ping: String }
-type Mutation { saveHuman(name: String!): Human! promote(id: ID!): Human! ping: String dropHuman(name: String!): Human purge: [Human!]! }
+type Mutation { saveHuman(name: String!): Human! promote(id: ID!): Human! ping: String dropHuman(name: String!): Human purge: [Human!]! saveBoth(name: String!): SavePayload }
 `
 const vSM2 = `
 interface Node { id: ID! }
 type Human implements Node { id: ID! phone: String! }
-type Query { node(id: ID!): Node }
+type Query { node(id: ID!): Node phones(first: Int): Int }
 type Mutation { savePhone(p: String!): Human! bump: Int }
 `
 
@@ -343,6 +371,9 @@ func vMutationWorld() *vWorld {
 	w.roots["Mutation.bump"] = verifInt("bump", 0, 9)
 	w.roots["Mutation.dropHuman"] = nil
 	w.roots["Mutation.purge"] = []vRef{}
+	w.ents["p1"] = vEnt{"__typename": "SavePayload", "id": "p1", "human": vRef{"Human", "h2"}, "query": vRootRef("Query")}
+	w.roots["Mutation.saveBoth"] = vRef{"SavePayload", "p1"}
+	w.roots["Query.phones"] = 3
 	return w
 }
 
@@ -368,6 +399,9 @@ func vMutationOps() []vMutOp {
 		{q: `mutation { purge { name phone } bump }`, roots: []string{"purge", "bump"}},
 		// __typename of the root next to the mutation (answered by the gateway itself)
 		{q: `mutation { __typename saveHuman(name: "x") { name phone } }`, roots: []string{"saveHuman"}},
+		// a payload that hands out the Query type again (the Relay convention): what is read through it
+		// at the other service is a follow-up query, never a second mutation
+		{q: `mutation Both($n: String!, $k: Int) { saveBoth(name: $n) { human { name phone } query { ping phones(first: $k) me { phone } } } }`, roots: []string{"saveBoth"}},
 		// two different documents under one operation name
 		{q: `mutation Save { saveHuman(name: "x") { name } }`, roots: []string{"saveHuman"}, sibling: `mutation Save { bump }`},
 		{q: `mutation Save { bump }`, roots: []string{"bump"}, sibling: `mutation Save { saveHuman(name: "x") { name } }`},
@@ -428,6 +462,13 @@ func VerifMutations() {
 			return nil, nil, false
 		}
 	}
+	if pdoc, perr := gqlparser.LoadQuery(f.gw.schema, op.q); perr == nil {
+		var sp planner.SequentialPlanner
+		plan, err := sp.Plan(&planner.PlanningContext{Operation: pdoc.Operations[0], Request: &requests.Request{Query: op.q}, Schema: f.gw.schema, TypeURLMap: f.gw.typeURLMap})
+		if err == nil {
+			vPlannedStepsValid(f, plan.RootSteps, ast.Mutation)
+		}
+	}
 	rounds := 1
 	if cfgi == 2 {
 		// the caching planner is primed with the query that has the same selection set
@@ -436,7 +477,7 @@ func VerifMutations() {
 		}
 		rounds = 2
 	}
-	vars := map[string]interface{}{"n": "x", "id": "h1"}
+	vars := map[string]interface{}{"n": "x", "id": "h1", "k": 2}
 	if op.sibling != "" {
 		f.vPost(op.sibling, vars, "")
 	}
@@ -445,10 +486,14 @@ func VerifMutations() {
 		for _, s := range f.svcs {
 			s.calls = 0
 		}
-		f.vPost(op.q, vars, "")
+		_, ans := f.vPost(op.q, vars, "")
+		if ab, aerr := json.Marshal(ans); aerr == nil {
+			verifLog("answer: " + string(ab))
+		}
 		counts := map[string]int{}
 		for _, sub := range f.log {
 			svc := f.svcByURL(sub.url)
+			verifLog("sub " + sub.url + ": " + vNorm(sub.query))
 			sdoc, serr := gqlparser.LoadQuery(svc.schema, sub.query)
 			verifAssert(serr == nil, "every sub-request is valid for its service")
 			if serr != nil {
@@ -464,8 +509,9 @@ func VerifMutations() {
 			}
 			verifAssert(sop.Operation == ast.Query, "follow-up lookups are queries")
 			for _, rf := range roots {
-				verifAssert(rf == "node", "follow-up lookups go through node, never through a mutation field")
+				verifAssert(rf == "node" || rf == "phones", "follow-up lookups go through node or a query field read through a payload, never through a mutation field")
 			}
+			verifAssert(sub.opn == "", "follow-up lookups are anonymous")
 		}
 		want := map[string]int{}
 		for _, rf := range op.roots {
